@@ -133,7 +133,7 @@ def c04(ctx):
             args = [mname, "--platforms", p, "--scale", sc]
             if threads:
                 args += ["--threads", threads]
-            ctx.mon("cell/%s-%s/%s/%s" % (fl, prof, p, mname), fl, prof, args)
+            ctx.mon("cell/%s-%s/%s/%s" % (fl, prof, p, mname), fl, prof, args, adopt=lambda sig: True)
 
     ctx.parallel([(lambda c=c: cell(c)) for c in cells], workers=6)
     seen = {}
@@ -154,7 +154,7 @@ def c04(ctx):
         ctx.parallel([(lambda s=s: core.cargo_build(s[0], "debug")) for s in stock], workers=6)
         for flname, fl, no in stock:
             for mname in ("c01", "c02", "c03", "c09"):
-                ctx.mon("stock/%s/%s" % (flname, mname), flname, "debug", [mname, "--platforms", "native", "--scale", "0.3"])
+                ctx.mon("stock/%s/%s" % (flname, mname), flname, "debug", [mname, "--platforms", "native", "--scale", "0.3"], adopt=lambda sig: True)
             items = ctx.observations["stock/%s/c01" % flname].get("sets", {}).get("platforms", {}).get("items", [])
             if "native=%s" % expect[no] not in items:
                 ctx.note_inconclusive("stock build %s reports %s, expected native=%s" % (flname, items, expect[no]))
@@ -177,9 +177,9 @@ def c07(ctx):
     core.cdrv_run(ctx, "api/cdrv-asm", "asm", "native", "api", scale=4.0 if t else 0.5)
     core.cdrv_run(ctx, "api/cdrv-int", "int", "native", "api", scale=4.0 if t else 0.5)
     # 2. Rust API level: every update slice / fill destination flush against a guard page
-    ctx.mon("rust-api-guard/c02", "asm", "debug", ["c02", "--guard", "1", "--scale", "2" if t else "0.3"])
-    ctx.mon("rust-api-guard/c03", "asm", "debug", ["c03", "--guard", "1", "--scale", "2" if t else "0.3"])
-    ctx.mon("rust-api-guard/c02-intr", "intr", "debug", ["c02", "--guard", "1", "--scale", "1" if t else "0.15"])
+    ctx.mon("rust-api-guard/c02", "asm", "debug", ["c02", "--guard", "1", "--scale", "2" if t else "0.3"], adopt=lambda sig: ("canary" in sig or "fatal" in sig))
+    ctx.mon("rust-api-guard/c03", "asm", "debug", ["c03", "--guard", "1", "--scale", "2" if t else "0.3"], adopt=lambda sig: ("canary" in sig or "fatal" in sig))
+    ctx.mon("rust-api-guard/c02-intr", "intr", "debug", ["c02", "--guard", "1", "--scale", "1" if t else "0.15"], adopt=lambda sig: ("canary" in sig or "fatal" in sig))
     ctx.mon("safe-api-probes", "asm", "debug", ["probes"])
     ctx.mon("safe-api-probes-intr", "intr", "debug", ["probes"])
     # 3. sanitizer / interpreter / memcheck builds of the same workloads, concurrently
@@ -295,15 +295,18 @@ def c18(ctx):
     ctx.parallel(jobs, workers=4)
     # C: fresh processes of the threaded executor against libblake3.so (+ writable-segment diff)
     cmt = cbuild.build_cmt("native")
-    core.cdrv_run(ctx, "c/cmt", "asm", "native", "api", scale=4.0 if t else 1.0, shards=64 if t else 16, exe=cmt,
-                  exe_args=lambda i: [str(sizes[i % 4])])
+    # each cmt invocation forks ROUNDS fresh processes (detection cache UNDEFINED in each), threads
+    # start staggered by 0-3 us, every history begins with one large update
+    core.cdrv_run(ctx, "c/cmt", "asm", "native", "api", scale=6.0 if t else 1.5, shards=16, exe=cmt, gen_extra=["--first-big", "1"],
+                  exe_args=lambda i: [str(sizes[i % 4]), "400" if t else "60", str(ctx.seed * 100 + i)])
     def tsan_rust():
         for k in range(12 if t else 3):
             core.tsan_mon(ctx, "rust/tsan-proc%d" % k, ["c18", "--nthreads", str([4, 16, 8][k % 3]), "--proc", str(1000 + k), "--per-thread", "3"])
     jobs = [
         tsan_rust,
         lambda: core.cdrv_run(ctx, "c/cmt-tsan", "int", "tsan", "api", scale=1.0 if t else 0.25, shards=8 if t else 4, exe=cbuild.build_cmt("tsan"),
-                              exe_args=lambda i: [str([4, 16][i % 2])], env_extra={"TSAN_OPTIONS": "halt_on_error=1 exitcode=66"}),
+                              gen_extra=["--first-big", "1"], exe_args=lambda i: [str([4, 16][i % 2]), "6" if t else "3", str(ctx.seed * 100 + i)],
+                              env_extra={"TSAN_OPTIONS": "halt_on_error=1 exitcode=66"}),
         lambda: core.miri_run(ctx, "rust/miri", ["c18", "--miri-small", "1", "--nthreads", "3", "--per-thread", "1"], shards=32 if t else 12, flavour="pure",
                               miriflags="-Zmiri-seed={shard}"),
     ]
@@ -348,6 +351,16 @@ def c13(ctx):
     exe_r = b3mon_bin("release")
     ctx.mon("c13/lines-release", "asm", "release", ["lines"], binary=exe_r)
     ctx.mon("c13/paths-release", "asm", "release", ["paths"], binary=exe_r)
+    # end to end on the real binary: hostile file names -> b3sum [--tag] -> parser and --check
+    import sys
+    sys.path.insert(0, os.path.join(core.VERIF, "pyspec"))
+    import cli_monitor
+    r = cli_monitor.run_names(b3sum_bin("asm", "release"), exe_r, ctx.seed, ctx.thorough)
+    for sig, detail in r["violations"]:
+        ctx.add_violation(sig, "[c13/cli-names] " + detail, {"kind": "cmd", "cmd": ["./check", "C13", "--tier", ctx.tier], "cwd": core.VERIF})
+    ctx.add_observed("c13/cli-names", r["evaluations"], r["distinct"], r["samples"],
+                     "real files with hostile names (spaces, double spaces, ') = ', 'BLAKE3 (' prefixes, backslashes, CR, LF, invalid UTF-8, U+FFFD) hashed by the real b3sum binary in plain and --tag form; every printed line is parsed in-process (must return the original name bytes and the file's hash, or be rejected iff the name is unrepresentable) and the whole output is fed to the real b3sum --check; distinct = distinct (form, name feature, representable) classes",
+                     {"classes": r["classes"]})
 
 
 PROPS = {
